@@ -113,7 +113,8 @@ def expected(ref, s, L):
     else:
         # searches, Sids whose last value is an alias, Sids that still carry a query: the unfolding (C07) decides
         try:
-            pats = [u.string for u in unfold_search(s) if u and "?" not in u.string]   # typed searches only (C07)
+            impl = [(u.type, u.string) for u in unfold_search(s) if u and "?" not in u.string]   # typed searches only (C07)
+            pats = [st for _, st in rs.denoted_typed(ref, s, impl)]   # the reference unfolding where it is unambiguous
         except SpilException:
             return None
     return {e for e in L if any(ref_glob(p, e) for p in pats)}
